@@ -830,6 +830,11 @@ class ZeroSigH0SingleDatasetTCLLHRatio(
         """
         tracing = self._cfg['debugging']['enable_tracing']
 
+        # The cached first derivatives w.r.t. ns belong to the previous
+        # evaluation. If this evaluation fails, they must not be used by the
+        # calculate_ns_grad2 method.
+        self._cache_nsgrad_i = None
+
         if src_params_recarray is None:
             src_params_recarray = self._pmm.create_src_params_recarray(
                 gflp_values=fitparam_values
